@@ -406,6 +406,33 @@ def check_zero_rules(model, rep):
     rep.ob('R04.3', ar.key, ar.where(), ok, 'd arg/d arg is the identity (one diagonalize per axis), zero for other arguments' if ok else 'Argument._derivative changed', statement='argument-identity')
 
 
+def check_memo_discipline(model, rep):
+    """R04.7: the memo `seen` of evaluable.derivative maps a node to its derivative with respect to ONE target.  It may therefore only be
+    handed on by a `_derivative(self, var, seen)` rule, together with that rule's own `var`; any other caller starts without a memo.
+    A dictionary shared between two targets returns the derivative to the first target for the second."""
+    n = 0
+    for f in model.functions.values():
+        if isinstance(f.node, ast.Lambda) or not f.module.short.split('.')[0] in ('evaluable', 'function', 'sample', 'solver', 'topology'):
+            continue
+        for c in calls_in(f.node, nested=False):
+            if method_name(c) != 'derivative' or src(c.func) not in ('derivative', 'evaluable.derivative'):
+                continue
+            memo = c.args[2] if len(c.args) >= 3 else next((k.value for k in c.keywords if k.arg == 'seen'), None)
+            if memo is None:
+                continue
+            n += 1
+            pos = params(f.node)[0]
+            ok = f.name == '_derivative' and pos[:3] == ['self', 'var', 'seen'] and isinstance(memo, ast.Name) and memo.id == 'seen' and len(c.args) >= 2 and isinstance(c.args[1], ast.Name) and c.args[1].id == 'var'
+            if ok:
+                # the rule's own memo and target must not have been rebound
+                ok = not any(isinstance(a, (ast.Assign, ast.AugAssign)) and any(isinstance(t, ast.Name) and t.id in ('seen', 'var') for t in ast.walk(a)) and not isinstance(a, ast.AugAssign) and any(isinstance(t, ast.Name) and t.id in ('seen', 'var') for tt in a.targets for t in ast.walk(tt)) for a in ast.walk(f.node) if isinstance(a, ast.Assign))
+            rep.ob('R04.7', f.key, f.where(c), ok, 'the memo is handed on by a _derivative rule together with its own target' if ok else
+                   f'`{src(c)[:70]}` passes a memo to evaluable.derivative outside a `_derivative(self, var, seen)` rule (or with another target than the rule\'s own): the memo is keyed by node only, so a second target '
+                   'is served the derivative with respect to the first', statement='memo-per-target')
+    if n < 30:
+        raise AnalysisError(f'only {n} calls of derivative(..., seen) found')
+
+
 def run(model, rep, tier):
     with open(ORACLE) as f:
         oracle = json.load(f)
@@ -422,6 +449,7 @@ def run(model, rep, tier):
     rep.rule('R04.3', 'zero rules, memo and assertion of the driver')
     rep.rule('R04.4', 'linear structural rules act on the right axis of the derivative')
     rep.rule('R04.5', 'derivatives accumulated over arguments are added, not overwritten')
+    rep.rule('R04.7', 'the derivative memo is only handed on by _derivative rules, with their own target (one memo per target)')
     rep.rule('R04.6', 'Monomial._derivative ravels the argument multi-index row-major (= R13.7, symbolic execution)')
     rep.trusted_base.append('oracles/calculus.json (textbook calculus)')
     check_tables(model, rep, oracle)
@@ -429,6 +457,7 @@ def run(model, rep, tier):
     check_zero_rules(model, rep)
     check_linear(model, rep)
     check_accumulation(model, rep)
+    check_memo_discipline(model, rep)
     from rules.c13 import check_monomial_ravel
     check_monomial_ravel(model, rep, rule='R04.6')
     rep.require('R04.1', 50)
